@@ -588,7 +588,7 @@ func main() {
 			"race detection is happens-before based on the explored synchronisation orders; it has no false positives",
 			"bounds: <=3 threads, <=2 calls per thread, preemption bound 2/1 (quick) 3/2 (thorough); 2..8 goroutines of the statement are covered up to 3",
 		},
-		QuickBudget:    150 * time.Second,
-		ThoroughBudget: 40 * time.Minute,
+		QuickBudget:    300 * time.Second,
+		ThoroughBudget: 120 * time.Minute,
 	})
 }
